@@ -11,64 +11,64 @@ BASELINE_OFF = ("cd /repo && GOFLAGS=-mod=mod GOPROXY=off go build ./... && "
 
 # id -> (claim text, what is not decided, technique)
 P = {
- "C01": ("Structural necessary conditions of handshake agreement: client/server role mirror of every key-derivation call (randoms, isClient flag, Finished label), session-hash rule list equals the CertificateVerify transcript, negotiated values committed only after the peer hello was validated, peer chain stored only from the peer's Certificate message, snapshot field completeness.",
+ "C01": ("Structural necessary conditions of handshake agreement: client/server role mirror of every key-derivation call (randoms, isClient flag, Finished label), session-hash rule list equals the CertificateVerify transcript, negotiated values committed only after the peer hello was validated, peer chain stored only from the peer's Certificate message, snapshot field completeness; the committed SRTP decision equals what the (hook-rewritable) ServerHello carries; ShouldWrapCID is exactly the negotiated state.",
          "Agreement over the configuration product and delivery schedules; byte equality of exported keying material; that data then flows.",
          "SSA provenance (def-use slicing) + dominance + table extraction"),
- "C02": ("Recoverability structure only: retransmit flags of the generator tables, non-retransmitted flights regenerable via the previous flight's parser, records one epoch ahead are queued and replayed after every read-key installation.",
+ "C02": ("Recoverability structure only: retransmit flags of the generator tables, non-retransmitted flights regenerable via the previous flight's parser, records one epoch ahead are queued and replayed after every read-key installation; the waiting state keeps one timer across non-advancing datagrams; tracked DTLS 1.3 fragments remember their own offset/length.",
          "Liveness itself: completion and its latency under every fault mask are runtime quantities.",
          "switch-table extraction + must-pass-through (dominance) on SSA"),
  "C03": ("Every accepting path passes the credential checks: client verifies ServerKeyExchange signature and chain before deriving keys (must-pass-through, control-dependence whitelist); server client-auth policy decision table extracted exhaustively over ClientAuth x certificate presence x verified flag; DTLS 1.3 Certificate/CertificateVerify/Finished flags.",
          "Correctness of x509/ECDSA/RSA verification (library); expiry/time.",
          "must-pass-through + finite decision-table extraction over SSA CFG"),
- "C04": ("Every first consumption of the peer's Finished in a DTLS 1.2 flight parser is followed on every advancing exit by a successful equality test of verify_data against PRF(master secret, role label, canonical transcript); DTLS 1.3 success exits dominated by verifyPeerFinished; second ClientHello validated against the first.",
+ "C04": ("Every first consumption of the peer's Finished in a DTLS 1.2 flight parser is followed on every advancing exit by a successful equality test of verify_data against PRF(master secret, role label, canonical transcript); DTLS 1.3 success exits dominated by verifyPeerFinished; second ClientHello validated against the first; the cookie-echoing ClientHello (1.2) and the HelloRetryRequest answer (1.3) are byte-compared with the first ClientHello around the cookie / in front of the extensions.",
          "That every byte mutation changes the hash (cryptographic).",
          "must-pass-through with failure-assumption path exploration + rule-list table comparison"),
  "C05": ("Receive-path ordering: replay check before decrypt, accept-closure invoked only by consumers of authenticated records, CID presence/equality checks on every decrypt-success path, no alert/emit reachable from the prepare/decrypt path, epoch-0 application data refused, AAD reads every header field; DTLS 1.3 open(): nonce/ciphertext/additional-data provenance, result only after a successful AEAD Open, full comparison of the unmasked on-wire sequence bits with the reconstructed number.",
          "Payload equality (AEAD correctness is the library's); replay-window semantics.",
          "dominance ordering + who-may-call + call-graph reachability + field-read sets"),
- "C06": ("No delivery path bypasses the replay detector; window argument derives from the configured value; one detector per epoch; DTLS 1.3 highest-accepted sequence written only inside the accept closure.",
+ "C06": ("No delivery path bypasses the replay detector; window argument derives from the configured value; one detector per epoch; DTLS 1.3 highest-accepted sequence written only inside the accept closure; the commit function handed to record consumers marks the window on every path and reports the detector's answer; DTLS 1.3 record-number reconstruction has half-window thresholds and whole-window moves.",
          "Window semantics (pion/transport replaydetector, outside the repository); arrival-order quantification.",
          "who-may-call + provenance slicing"),
- "C07": ("Packet-literal discipline (ShouldEncrypt / epoch on every secret-carrying flight.Packet), Write reaches the record writer only after Handshake(), encrypted branch output flows only through Encrypt/seal, exporter secret provenance per State constructor.",
+ "C07": ("Packet-literal discipline (ShouldEncrypt / epoch on every secret-carrying flight.Packet), Write reaches the record writer only after Handshake(), encrypted branch output flows only through Encrypt/seal, exporter secret provenance per State constructor; packets re-built around another packet's record inherit its protection flags; Write reads the connection state only after Handshake().",
          "Cryptographic secrecy; interleavings of Write with Close.",
          "composite-literal extraction + dominance + provenance slicing"),
- "C08": ("Panic-freedom classes (index/slice bounds by a linear-inequality abstract interpreter with Fourier-Motzkin entailment, nil map-element dereference, unchecked type assertion, explicit panic) on everything reachable from the network entry points; guarded growth of the two named buffers; decode errors mapped to drop.",
+ "C08": ("Panic-freedom classes (index/slice bounds by a linear-inequality abstract interpreter with Fourier-Motzkin entailment, nil map-element dereference, unchecked type assertion, explicit panic) on everything reachable from the network entry points; guarded growth of the two named buffers; decode errors mapped to drop; every error the datagram unpackers can return is mapped to "drop and continue" by the read loop.",
          "General deadlock freedom, allocation volume, CPU; bounds inside std/x-crypto.",
          "abstract interpretation (linear inequalities) over SSA + call-graph reachability"),
- "C09": ("Single allocator of record sequence numbers, no other writer of the counter, every caller holds Conn.lock and the emit roots hold writeLock through the write, the allocated number is the number stored in every header marshalled/encrypted afterwards, overflow check on the allocator result, nonce dependency set; DTLS 1.3 nonce = private copy of the IV XOR the big-endian allocated number over the last 8 bytes.",
+ "C09": ("Single allocator of record sequence numbers, no other writer of the counter, every caller holds Conn.lock and the emit roots hold writeLock through the write, the allocated number is the number stored in every header marshalled/encrypted afterwards, overflow check on the allocator result, nonce dependency set; DTLS 1.3 nonce = private copy of the IV XOR the big-endian allocated number over the last 8 bytes; ConnectionState never serves a cached snapshot (the exported counter is live).",
          "Atomicity semantics of sync/atomic, scheduler behaviour.",
          "who-may-write + lockset + SSA provenance"),
- "C10": ("Layouts, labels and constants extracted from the encoders and compared with tables transcribed from the RFCs: PRF label constants and seed order, key-block partition order, per-suite key/IV/MAC lengths, AAD and CBC MAC layouts (with and without CID), DTLS 1.3 HkdfLabel structure, label-per-derivation table, Early/Handshake/Master extraction chain, Finished MAC, CertificateVerify input constants, record nonce, AEAD inputs of seal/open, record-number mask generation and application.",
+ "C10": ("Layouts, labels and constants extracted from the encoders and compared with tables transcribed from the RFCs: PRF label constants and seed order, key-block partition order, per-suite key/IV/MAC lengths, AAD and CBC MAC layouts (with and without CID), DTLS 1.3 HkdfLabel structure, label-per-derivation table, Early/Handshake/Master extraction chain, Finished MAC, CertificateVerify input constants, record nonce, AEAD inputs of seal/open, record-number mask generation and application; per-suite PRF hash for the key-block expansion (through helper parameters and promoted methods) and HashFunc().",
          "P_hash iteration and primitive internals (HMAC/HKDF/AES/CCM).",
          "symbolic byte-layout extraction on SSA + constant tables"),
- "C11": ("Provenance of every committed choice: cipher suite only from FindMatchingCipherSuite over local list, version only from SelectVersion, EMS Require decision table, unsolicited-extension guards.",
+ "C11": ("Provenance of every committed choice: cipher suite only from FindMatchingCipherSuite over local list, version only from SelectVersion, EMS Require decision table, unsolicited-extension guards; list searches over (element, captured value of the same type) are whole-value equality.",
          "The full configuration product; 'highest version both allow'.",
          "only-from provenance + decision tables"),
- "C12": ("Sender fragment header provenance (offset = running sum, length = len(fragment)), Pop returns non-nil only after the completeness guards and is the only path that deletes the entry and advances the cursor, single consumer.",
+ "C12": ("Sender fragment header provenance (offset = running sum, length = len(fragment)), Pop returns non-nil only after the completeness guards and is the only path that deletes the entry and advances the cursor, single consumer; handshake header wire layout; the reassembly buffer is drained after every successful push.",
          "Byte-exact reassembly over all partitions and permutations.",
          "SSA provenance + must-pass-through"),
- "C13": ("Cookie flights flagged non-retransmittable in both generator tables; their generators emit exactly one HelloVerifyRequest/HelloRetryRequest; flight0Parse cannot yield the certificate flight without skip-verify; the second-hello parser's success is dominated by the checked cookie/body validation with the cookie argument derived from state.",
+ "C13": ("Cookie flights flagged non-retransmittable in both generator tables; their generators emit exactly one HelloVerifyRequest/HelloRetryRequest; flight0Parse cannot yield the certificate flight without skip-verify; the second-hello parser's success is dominated by the checked cookie/body validation with the cookie argument derived from state; second ClientHello byte-compared with the first; session-store adapter preserves a miss.",
          "Datagram sizes and timing.",
          "switch-table extraction + decision tables + must-pass-through"),
- "C14": ("Finished comparison on both abbreviated paths, resumed master secret provenance (store lookup keyed by the offered ID), fresh randoms/CIDs on every path of the hello generators, fatal alert deletes the session before the alert is written, client certificate clears the session ID.",
+ "C14": ("Finished comparison on both abbreviated paths, resumed master secret provenance (store lookup keyed by the offered ID), fresh randoms/CIDs on every path of the hello generators, fatal alert deletes the session before the alert is written, client certificate clears the session ID; session-store adapter preserves a miss; only the full-handshake parsers write the store.",
          "Store contents over histories; loss patterns.",
          "must-pass-through + provenance + decision table"),
- "C15": ("CID checks on receive (with C05), CID wrapping flags on every protected packet literal, Conn.rAddr has a single guarded writer, WriteToContext call sites dominated by the amplification reserve, Reserve factor constant.",
+ "C15": ("CID checks on receive (with C05), CID wrapping flags on every protected packet literal, Conn.rAddr has a single guarded writer, WriteToContext call sites dominated by the amplification reserve, Reserve factor constant; the commit function reports the detector's "newest record" answer (gate for path challenges).",
          "Timing, racing paths, listener map behaviour.",
          "who-may-write + control dependence + dominance"),
- "C16": ("Lock-acquisition order graph acyclic; every blocking channel operation has a cancellation alternative; single close site per channel; close()/close_notify decision table.",
+ "C16": ("Lock-acquisition order graph acyclic; every blocking channel operation has a cancellation alternative; single close site per channel; close()/close_notify decision table; the write-path context helpers return the context that a watcher on Conn.closed cancels, on every path.",
          "Data-race freedom and deadlock freedom over interleavings; goroutine counts.",
          "lock-order graph + select-case enumeration + who-may-close"),
- "C17": ("handleRetransmitTimeout decision table and constants (doubling, 60 s cap, backoff disable), interval writers enumerated, reset store control-dependent only on non-retransmitted input, cookie flights never timer-sent.",
+ "C17": ("handleRetransmitTimeout decision table and constants (doubling, 60 s cap, backoff disable), interval writers enumerated, reset store control-dependent only on non-retransmitted input, cookie flights never timer-sent; the waiting state keeps one retransmission timer (never re-armed by non-advancing datagrams).",
          "Actual intervals and datagram counts.",
          "decision-table extraction + who-may-write + control dependence"),
- "C18": ("Marshal/Unmarshal field symmetry per codec type, registries cover every message/content/extension implementer, decoded lengths that guard must also bound the following slice, datagram unpackers advance by exactly the declared length; decoder loops that run to the end of their buffer consume exactly a declared length.",
+ "C18": ("Marshal/Unmarshal field symmetry per codec type, registries cover every message/content/extension implementer, decoded lengths that guard must also bound the following slice, datagram unpackers advance by exactly the declared length; decoder loops that run to the end of their buffer consume exactly a declared length; Handshake.Unmarshal decodes only whole messages (len-12 == length == fragment_length); unified header size from the parsed header; handshake header wire layout.",
          "decode(encode(v)) == v and canonical fixed points over values.",
          "field read/write sets + registry exhaustiveness + length-use lint on SSA"),
- "C19": ("Every serializedState field written by serialize and read by deserialize, every State field produced by generateState consumed by generateInternalState, sequence counter carried from and back to the same epoch index, DTLS 1.3 refused at all four entry points.",
+ "C19": ("Every serializedState field written by serialize and read by deserialize, every State field produced by generateState consumed by generateInternalState, sequence counter carried from and back to the same epoch index, DTLS 1.3 refused at all four entry points; imported integers are taken verbatim; ConnectionState generates its snapshot from the live state; Write reads the state after Handshake().",
          "That the resumed connection interoperates; gob robustness.",
          "field coverage sets + provenance + guard dominance"),
- "C20": ("Write generation installed only by commitLocalKeyUpdate, reached only after the ACK path, under both locks and after validateNextWriteGeneration; read side installs only in handleKeyUpdate after epoch guards; successor derivation label/inputs; candidate epochs bounded by RemoteEpoch before Open.",
+ "C20": ("Write generation installed only by commitLocalKeyUpdate, reached only after the ACK path, under both locks and after validateNextWriteGeneration; read side installs only in handleKeyUpdate after epoch guards; successor derivation label/inputs; candidate epochs bounded by RemoteEpoch before Open; every retained read generation with matching epoch bits is a candidate; an epoch-0 ACK can never pass on a protected record number (decided semantically).",
          "Exactly-once delivery under loss/reordering and concurrency.",
          "who-may-call + lockset + must-pass-through + provenance"),
 }
